@@ -782,8 +782,8 @@ def ev_render(ident: int, c: Case) -> dict:
             while i != -1:
                 offs.append(i)
                 i = txt.find(s, i + 1)
-            if len(offs) > 160:      # keep the wire small: the earliest and the latest occurrences decide
-                offs = offs[:80] + offs[-80:]
+            if len(offs) > 4000:     # (never truncated: a dropped occurrence could be the one that satisfies the order)
+                raise OutOfVocab('a fragment occurs more than 4000 times in the text')
         occ.append([name, offs])
     e['occ'] = occ
     e['rtree'] = render_tree(err.tree, frags)
